@@ -10,7 +10,7 @@
 // malformed address}, path in {/list-transactions, /backup-wallet, /restore-wallet,
 // /list-access-tokens} and credentials in {none, empty, and per id: the latest issued
 // (id, secret), the first issued (id, secret), (id, wrong secret), the re-split pairs
-// (id||c, rest-of-secret) and (id minus last char, last char||secret)}.
+// (id||c, rest-of-secret) and (id minus last char, last char||secret), (id, empty password)}.
 // Every sequence of <= 6 (quick) / <= 8 (thorough) events is covered, de-duplicated on the
 // private state of store + cache + clock together with the state of the reference.
 //
@@ -83,6 +83,7 @@ const (
 	credWrong
 	credSplitLeft  // (id||c, rest)
 	credSplitRight // (id minus last char, last char||secret)
+	credEmptyPw    // (id, "")
 	credKinds
 )
 
@@ -136,6 +137,8 @@ func credName(e event) string {
 		return "re-split pair (" + ids[e.id] + "||c, rest of secret)"
 	case credSplitRight:
 		return "re-split pair (" + ids[e.id] + " minus last char, last char||secret)"
+	case credEmptyPw:
+		return ids[e.id] + " with an empty password"
 	}
 	return "?"
 }
@@ -331,6 +334,8 @@ func (s *sut) creds(e event) (has bool, user, pw string) {
 		return true, id + secret[:1], secret[1:]
 	case credSplitRight:
 		return true, id[:len(id)-1], id[len(id)-1:] + secret
+	case credEmptyPw:
+		return true, id, ""
 	}
 	return false, "", ""
 }
@@ -401,17 +406,17 @@ func (s *sut) apply(e event) (info stepInfo) {
 		switch {
 		case v == mustRefuse && admitted:
 			// structural key: why was it admitted?
-			key := "admitted:" + strings.ReplaceAll(why, " ", "-")
+			key := "admitted." + strings.NewReplacer(" ", "-", ",", "", "(", "", ")", "").Replace(why)
 			if has && s.m.pair(user, pw) == nil {
 				for _, t := range s.m.toks {
 					if t.id+t.secret == user+pw {
-						key = "admitted:resplit-credentials-match-cache-key-of-issued-token"
+						key = "admitted.resplit-credentials-match-cache-key-of-issued-token"
 					}
 				}
 			}
 			add(key, fmt.Sprintf("request from %s for %s with user=%q password=%q was admitted: %s", origins[e.origin], paths[e.path], user, pw, why))
 		case v == mustAdmit && !admitted:
-			add("refused:live-token-on-unrestricted-path", fmt.Sprintf("request from %s for %s with the credentials of live token %q was refused: %v", origins[e.origin], paths[e.path], user, aerr))
+			add("refused.live-token-on-unrestricted-path", fmt.Sprintf("request from %s for %s with the credentials of live token %q was refused: %v", origins[e.origin], paths[e.path], user, aerr))
 		case v == mayEither && !originLoopback[e.origin] && admitted != cacheSays:
 			info.mayDiff++
 		}
